@@ -146,9 +146,16 @@ def run(repo, tier):
             k = (rec.cls, id(rec.origin))
             if k not in escaping or len(rec.chain) < len(escaping[k].chain):
                 escaping[k] = rec
+    undecided = []
     for (exc, _), rec in sorted(escaping.items(), key=lambda t: (t[0][0], getattr(t[1].origin, 'lineno', 0))):
         chain = [c for c in rec.chain if c[0] != '<entry>']
         q_origin = chain[-1][0]
+        if isinstance(rec.origin, ast.Raise) and q_origin in it.funcs and any(id(n) in it.unrefined_type_tests for n in walk_no_nested(it.funcs[q_origin])):
+            # an explicit raise in a function that tests types in a way the interpretation cannot follow: whether the raise is
+            # reachable is not known
+            undecided.append('{}:{} whether `{}` is reachable depends on a type test the analysis does not follow'.format(
+                q_origin, rec.origin.lineno, unparse(rec.origin)[:50]))
+            continue
         entry = chain[1][0] if len(chain) > 1 else chain[0][0]
         text = chain_text(rec)
         is_eval = isinstance(rec.origin, ast.Call) and isinstance(rec.origin.func, ast.Name) and rec.origin.func.id == 'eval'
@@ -190,7 +197,6 @@ def run(repo, tier):
     for ev in it.ev_store.values():
         if any(is_line(a) for a in ev['val']):
             line_nodes.add(id(ev['node']))
-    undecided = []
     n_checked = n_ae = 0
     for ev in sorted(it.ev_store.values(), key=lambda e: (getattr(e['site'], 'lineno', 0), e['attr'])):
         if id(ev['node']) not in line_nodes:
